@@ -2075,7 +2075,7 @@ func (w *World) immutableField(f *types.Var) bool {
 				if !ok {
 					return
 				}
-				if al, isAl := fa.X.(*ssa.Alloc); isAl && freshUnescapedAt(al, st) {
+				if al, isAl := rootAddr(fa).(*ssa.Alloc); isAl && freshUnescapedAt(al, st) {
 					return
 				}
 				written[fieldOf(fa)] = true
@@ -2104,4 +2104,31 @@ func zeroConstAny(t types.Type) ssa.Value {
 		}
 	}
 	return nil
+}
+
+// withinBody: fn is target, a function literal (transitively) inside it, a bound-method
+// wrapper made in it, or a single-call-site helper (transitively) of it.
+func (w *World) withinBody(fn, target *ssa.Function) bool {
+	for n := 0; n < 16 && fn != nil; n++ {
+		if fn == target {
+			return true
+		}
+		if fn.Parent() != nil {
+			fn = fn.Parent()
+			continue
+		}
+		if isBoundWrapper(fn) {
+			if mcs := w.Closures[fn]; len(mcs) == 1 {
+				fn = mcs[0].Parent()
+				continue
+			}
+			return false
+		}
+		site := w.singleSiteCI(fn)
+		if site == nil {
+			return false
+		}
+		fn = site.Parent()
+	}
+	return false
 }
